@@ -46,6 +46,9 @@ def run_entry(env, entry, cfg):
         rt = env.rt
         if cfg.get("ignore"):
             rt.ignore_errors(True)
+        if rt is None:
+            res = entry.fn(k)
+            return res, ([], [], []), None, None, []
         fn = lambda: entry.fn(k)
         for gn in reversed(gnames):
             fn = (lambda inner, gn=gn: (lambda: rt.guarded(k.G(gn))(inner)()))(fn)
